@@ -161,6 +161,9 @@ pub struct GenCfg {
     pub ref_heavy: bool,
     /// do not use exnref as a value type (keeps the known exnref round-trip defect out of other monitors)
     pub avoid_exnref: bool,
+    /// bodies do not start with the `i32.const <uid>; drop` fingerprint (workloads that identify functions by position: the
+    /// first instruction of a body can then be a block / loop / if)
+    pub no_fingerprint: bool,
 }
 impl GenCfg {
     pub fn default_for(rng: &mut Rng) -> GenCfg {
@@ -170,6 +173,7 @@ impl GenCfg {
             max_funcs: rng.range(1, 6),
             max_imp_globals: 2,
             off_global_any: false,
+            no_fingerprint: false,
             max_globals: 4,
             max_imp_mems: 1,
             max_mems: 2,
@@ -1722,8 +1726,10 @@ pub fn generate(rng: &mut Rng, prof: Profile, cfg: &GenCfg) -> GenModule {
             array_types: array_types.clone(),
         };
         let _ = (cx.this_func, cx.func_type_void);
-        cx.out.push(I::I32Const((FP_BASE + g.func_uids[fidx as usize].unwrap()) as i32));
-        cx.out.push(I::Drop);
+        if !cfg.no_fingerprint {
+            cx.out.push(I::I32Const((FP_BASE + g.func_uids[fidx as usize].unwrap()) as i32));
+            cx.out.push(I::Drop);
+        }
         let ns = rng.below(cfg.max_stmts + 1);
         for _ in 0..ns {
             cx.stmt(rng, 3);
